@@ -79,8 +79,8 @@ RULE = ('Hypothesis cases of two kinds.  kind=op (about 85%): a file '
         'close of A (explicit, or by its finaliser after drop/collect) while '
         'B has not been closed (B live, or dropped but not yet collected), '
         'or a derived result probed after one of its inputs was closed or '
-        'dropped - the first is '
-        'this is also the input class of the known double-close finding.  '
+        'dropped (the first is also the input class of the fixed double-close '
+        'finding).  '
         'Distinct by sha1 of the case spec.')
 ASSUMPTIONS = [
     'vf.spec.snapshot observes everything the property lists (dimensions, '
